@@ -50,10 +50,10 @@ def model(fault, handlers, final_mode):
     for h in handlers:
         if not h['types'] or issubclass(exc_t, tuple(h['types'])):
             calls.append((h['id'], exc_t.__name__))
-            if h['behaviour'] in ('return', 'reconnect'):
+            if h['behaviour'] in ('return', 'reconnect', 'disconnect'):
                 caught = True
                 break
-            if h['behaviour'] == 'raise-new':
+            if h['behaviour'] in ('raise-new', 'reconnect-raise'):
                 exc_t = h['new_type']
             # raise-same: exc unchanged
     final_called = final_mode in ('returns', 'raises', 'reconnects')
@@ -85,8 +85,12 @@ def scenario(run, rng, origin, chain, final_mode, pv, hook_log):
     import threading as _th
     state_ev = {'entered': _th.Event(), 'disconnect_sent': _th.Event()}
     state = {'eof': {}, 'accepted': 0}
-    may_reconnect = any(h['behaviour'] == 'reconnect' for h in chain) \
-        or final_mode == 'reconnects'
+    may_reconnect = any(h['behaviour'] in ('reconnect', 'reconnect-raise')
+                        for h in chain) or final_mode == 'reconnects'
+    # the failing listener may have queued packets before it failed; an
+    # outgoing listener that raises stands guard over them
+    queue_before_fault = origin in ('early-listener', 'listener') and \
+        rng.random() < 0.5
 
     def handler(io):
         state['accepted'] += 1
@@ -149,6 +153,8 @@ def scenario(run, rng, origin, chain, final_mode, pv, hook_log):
     conn = None
     final_calls = []
     reconnects = []
+    cancelled = []       # handlers that disconnected after a reconnect
+    tripped = []
 
     def final_returns(exc, exc_info):
         calls.append(('final', type(exc).__name__, exc))
@@ -160,7 +166,7 @@ def scenario(run, rng, origin, chain, final_mode, pv, hook_log):
         # the auto-reconnect idiom: a *final* handler starting a new connection
         calls.append(('final', type(exc).__name__, exc))
         reconnects.append('final')
-        conn.disconnect()
+        conn.disconnect(immediate=queue_before_fault)
         conn.connect()
     final_arg = {'none': None, 'false': False, 'returns': final_returns,
                  'raises': final_raises,
@@ -195,6 +201,17 @@ def scenario(run, rng, origin, chain, final_mode, pv, hook_log):
                     if h['behaviour'] == 'reconnect':
                         reconnects.append(h['id'])
                         conn.connect()
+                    if h['behaviour'] == 'reconnect-raise':
+                        reconnects.append(h['id'])
+                        conn.connect()
+                        raise h['new_type']('from handler %s' % h['id'])
+                    if h['behaviour'] == 'disconnect':
+                        if reconnects:
+                            cancelled.append(h['id'])
+                        # (a flushing disconnect would write the packets
+                        # the failing listener queued and trip the guard -
+                        # inside this handler, which is the handler's doing)
+                        conn.disconnect(immediate=queue_before_fault)
                 return fn
             fn = make(h)
             if rng.random() < 0.5:
@@ -209,7 +226,19 @@ def scenario(run, rng, origin, chain, final_mode, pv, hook_log):
         # fault injection points on the client
         if origin in ('early-listener', 'listener'):
             def boom(packet):
+                if queue_before_fault:
+                    for j in range(rng.randrange(1, 3)):
+                        conn.write_packet(serverbound.play.ChatPacket(
+                            message='queued before the fault %d' % j))
                 raise fault_type('from listener')
+            if queue_before_fault:
+                def tripwire(packet):
+                    tripped.append(1)
+                    raise ValueError('an outgoing listener failed while a '
+                                     'packet was written after the fault')
+                conn.register_packet_listener(
+                    tripwire, serverbound.play.ChatPacket, outgoing=True)
+                run.count('faults_with_packets_still_queued')
             conn.register_packet_listener(
                 boom, clientbound.play.ChatMessagePacket,
                 early=origin == 'early-listener')
@@ -297,6 +326,13 @@ def scenario(run, rng, origin, chain, final_mode, pv, hook_log):
             if state['accepted'] != 1:
                 bad('containment/extra-connection', 'an unexpected connection '
                     'was opened', accepted=state['accepted'])
+        elif cancelled:
+            # a later handler closed the connection an earlier one had opened
+            run.count('reconnects_cancelled_by_later_handler')
+            if state['accepted'] != 2:
+                bad('containment/reconnect-from-handler', 'a handler started a'
+                    ' new connection; exactly one more TCP connection must '
+                    'appear', accepted=state['accepted'])
         else:
             run.count('reconnects_from_handler')
             if state['accepted'] != 2:
@@ -453,15 +489,15 @@ def gen_chain(rng):
     reconnect_used = False
     for i in range(rng.choice((0, 1, 2, 2, 3, 4))):
         beh = rng.choice(('return', 'return', 'raise-new', 'raise-same',
-                          'reconnect'))
-        if beh == 'reconnect':
+                          'reconnect', 'reconnect-raise', 'disconnect'))
+        if beh in ('reconnect', 'reconnect-raise'):
             if reconnect_used:
-                beh = 'return'
+                beh = 'return' if beh == 'reconnect' else 'raise-new'
             reconnect_used = True
         chain.append({'id': 'h%d' % i, 'types': rng.choice(pool),
                       'early': rng.random() < 0.3, 'behaviour': beh,
                       'new_type': rng.choice((E0, E1, E2, F0, KeyError))
-                      if beh == 'raise-new' else None})
+                      if beh in ('raise-new', 'reconnect-raise') else None})
     return chain
 
 
@@ -500,12 +536,28 @@ def run(run):
                     if not run.mine(n):
                         continue
                     chain = gen_chain(rng)
+                    if rep < 2 and final_mode != 'reconnects':
+                        # directed: a handler reconnects and fails, a later
+                        # one closes what the first has opened
+                        chain = [{'id': 'h0', 'types': (), 'early': False,
+                                  'behaviour': 'reconnect-raise',
+                                  'new_type': E1}]
+                        if rep == 1:
+                            chain.append({'id': 'h1', 'types': (E1,),
+                                          'early': False, 'behaviour':
+                                          'raise-new', 'new_type': F0})
+                        chain.append({'id': 'h9', 'types': (E1, F0),
+                                      'early': False,
+                                      'behaviour': 'disconnect',
+                                      'new_type': None})
                     if final_mode == 'reconnects':
                         # one reconnect per failure: a second connect() would
                         # be refused as InvalidState, which is correct
                         for h in chain:
                             if h['behaviour'] == 'reconnect':
                                 h['behaviour'] = 'return'
+                            if h['behaviour'] == 'reconnect-raise':
+                                h['behaviour'] = 'raise-new'
                     pv = rng.choice((757, 757, 404, 340, 578))
                     err = None
                     for attempt in range(3):
@@ -540,3 +592,5 @@ def run(run):
     run.require('faults_injected', 20)
     run.require('origins', len(ORIGINS))
     run.require('reuse_checked', 10)
+    run.require('reconnects_cancelled_by_later_handler', 5)
+    run.require('faults_with_packets_still_queued', 5)
